@@ -21,6 +21,7 @@ import Ipv8.C02.Tables
 import Ipv8.C02.OldPayloads
 import Ipv8.C02.Dataclass
 import Ipv8.C02.Registry
+import Ipv8.C02.Frame
 open Ipv8 Ipv8.C02 Ipv8.Proto
 
 abbrev P := List Char
@@ -386,6 +387,26 @@ def step (_ : Unit) (toks : List String) : Unit × String :=
       some (match Reg.lookup (w.tbl id) name with
         | some f => showFmt f
         | none => "none")
+    | "ezunpack" :: sigLen :: h :: clss => do
+      -- sigLen = "-" : _ez_unpack_noauth ; otherwise _ez_unpack_auth with that signature length; classes after the auth header
+      let d ← ofHex? h
+      let ps ← clss.mapM findPayload
+      let fss := ps.map (·.fmts)
+      let attrsOf := fun (vss : List ValList) =>
+        (List.zip ps vss).mapM (fun (p, ul) => Code.evalUnpack (Gen.codeOf p.name) (flatten p.fmts ul))
+      if sigLen == "-" then
+        some (match Frame.ezUnpackNoAuth fss d with
+          | .ok vss => (match attrsOf vss with
+              | some as => "ok - " ++ showVal (.list (ValList.ofList (as.map (fun a => Val.record (ValList.ofList a)))))
+              | none => "err fromunpack")
+          | .error e => "err " ++ showErr e)
+      else do
+        let n ← sigLen.toNat?
+        some (match Frame.ezUnpackAuth n fss d with
+          | .ok (key, vss) => (match attrsOf vss with
+              | some as => "ok " ++ toHex key ++ " " ++ showVal (.list (ValList.ofList (as.map (fun a => Val.record (ValList.ofList a)))))
+              | none => "err fromunpack")
+          | .error e => "err " ++ showErr e)
     | ["dcrule", chain] => do
       let anns ← (splitChar chain ',').mapM Dc.Container.ofString
       some (Dc.applyRule (Dc.chainRule none anns)).toString
